@@ -419,6 +419,17 @@ def anchors():
         _s("gh_real"), _f("wtheta", dtype="gh_integer")])
     mk("anc_vec", "general",
        [_f("w0", "gh_inc", vec=3), _f("w3", vec=2), _f("any_space_1")])
+    # user variables named like the names the PSy layer would otherwise pick
+    # for its own (the PSy layer must keep them apart)
+    dv = mk("anc_vec_hostile", "general",
+            [_s("gh_real"), _f("w0", "gh_inc", vec=3), _s("gh_integer"),
+             _f("w3", vec=2)])
+    dv["alg"] = dict(dv["alg"], scalar_names={"1": "f2_2_data",
+                                              "3": "f4_1_data"})
+    dh = mk("anc_names_hostile", "general",
+            [_s("gh_integer"), _f("w1", "gh_inc"), _s("gh_real"), _f("w2")])
+    dh["alg"] = dict(dh["alg"], scalar_names={"1": "nlayers",
+                                              "3": "f2_data"})
     mk("anc_stencil", "general",
        [_f("w1", "gh_inc"), _f("w2", stencil="cross"),
         _f("w2", stencil="xory1d"), _f("w3", stencil="x1d"),
@@ -591,7 +602,9 @@ def render_algorithm(d):
             else:
                 nm = {"gh_real": "rs", "gh_integer": "is",
                       "gh_logical": "ls"}[a["dtype"]] + str(i)
-                if alg.get("hostile_names"):
+                if alg.get("scalar_names", {}).get(str(i)):
+                    nm = alg["scalar_names"][str(i)]
+                elif alg.get("hostile_names"):
                     # a user variable named like a name the PSy layer would
                     # otherwise pick for one of its own variables
                     others = [j for j, b in enumerate(d["args"], 1)
